@@ -1,5 +1,6 @@
 import Pyrtma.Drv.Util
 import Pyrtma.Spec.HashText
+import Pyrtma.Model.YamlDef
 /-! Line-protocol driver for M8 (grammar: harness/hash_corr.py). -/
 namespace Pyrtma.Drv.HashText
 open Pyrtma.HashText Pyrtma.Drv
@@ -36,8 +37,28 @@ def parseFields (s : String) : Fields :=
   | 'L' :: r => .list (parsePairs (String.ofList r))
   | _ => .null
 
+/-- two hex digits per byte; `-` = no byte -/
+def unhexBytes : List Char → List Nat
+  | a :: b :: r => (hexVal a * 16 + hexVal b) :: unhexBytes r
+  | _ => []
+
+def hexNat (s : String) : Nat := s.toList.foldl (fun a c => a * 16 + hexVal c.toLower) 0
+
+def optHex (s : String) : Option Nat := if s == "-" then none else some (hexNat s)
+
+structure Outs where
+  p : Nat
+  py : Option Nat
+  c : Option Nat
+  js : Option Nat
+  m : Option Nat
+  versions : List Nat
+
 structure Case where
   id : String := ""
+  sha : Option (List Nat × String) := none
+  src : Option (List (List Char)) := none       -- the physical lines of the definition as written in the file
+  outs : Option Outs := none
   d : Option Def := none
   a : Identity := default
   b : Identity := default
@@ -50,13 +71,44 @@ def parseIdent (sig name id fs : String) : Identity :=
   { signal := sig == "g", name := unhexS name, id := intOf id, fields := parsePairs fs }
 
 def finishCase (c : Case) : List String :=
+  match c.sha with
+  | some (bytes, want) =>
+    -- SHA-256 alone: the model's digest of the given bytes against hashlib's
+    let got := String.ofList (Sha256.hexDigest bytes)
+    let w0 := String.ofList (Sha256.hex8 (Sha256.word0 bytes))
+    [if got == want && w0 == (want.take 8).toString then s!"{c.id} CORR ok"
+     else s!"{c.id} CORR diff sha256 model={got} word0={w0} hashlib={want}", s!"{c.id} PROP C13 skip"]
+  | none =>
   let corr := match c.d with
     | none => []
     | some d =>
       let m := match rawText d with | some t => hexOf t | none => "crash"
-      [if m == c.raw then s!"{c.id} CORR ok" else s!"{c.id} CORR diff model={m} impl={c.raw}", s!"{c.id} TEXT {m}"]
-  let prop := if c.hasPair then [s!"{c.id} PROP C13 {judgePair c.a c.b c.ha c.hb}"] else [s!"{c.id} PROP C13 skip"]
-  corr ++ prop
+      let dg := match digestHex d with | some h => String.ofList h | none => "crash"
+      let h32 := match hash32 d with | some n => toString n | none => "crash"
+      -- the text, then the digest computed INSIDE the model against the parser's `hash`
+      [if m == c.raw then s!"{c.id} CORR ok" else s!"{c.id} CORR diff model={m} impl={c.raw}",
+       if dg == c.hb then s!"{c.id} CORR ok" else s!"{c.id} CORR diff digest model={dg} impl={c.hb}",
+       s!"{c.id} TEXT {m}", s!"{c.id} HASH {dg} {h32}"]
+  let outs := match c.d, c.outs with
+    | some d, some o =>
+      let h32 := hash32 d
+      [if h32 == some o.p then s!"{c.id} CORR ok" else s!"{c.id} CORR diff hash32 model={repr h32} parser={o.p}",
+       -- the model's value against every output (CORR) and the outputs among themselves (PROP, Spec)
+       (let bad := ([("py", o.py), ("c", o.c), ("js", o.js), ("m", o.m)].filter (fun q => q.2.isSome && q.2 != h32)).map (·.1)
+        let badv := o.versions.filter (fun v => some v != h32)
+        if bad.isEmpty && badv.isEmpty then s!"{c.id} CORR ok"
+        else s!"{c.id} CORR diff outputs model={repr h32} differing={bad} versions={badv}"),
+       s!"{c.id} PROP C13 {judgeOutputs o.p o.py o.c o.js o.m o.versions}"]
+    | _, _ => []
+  let loader := match c.d, c.src with
+    | some d, some ls =>
+      -- source lines -> loaded value (Model/YamlDef.lean) must be the definition the text and hash were computed from
+      let got := YamlDef.loadDef d.kind ls
+      [if got == some d then s!"{c.id} CORR ok" else s!"{c.id} CORR diff loader model={repr got} harness={repr d}"]
+    | _, _ => []
+  let prop := if c.hasPair then [s!"{c.id} PROP C13 {judgePair c.a c.b c.ha c.hb}"]
+              else if c.outs.isSome then [] else [s!"{c.id} PROP C13 skip"]
+  corr ++ loader ++ outs ++ prop
 
 def step (c : Case) (line : String) : Case × List String :=
   match toks line with
@@ -67,6 +119,14 @@ def step (c : Case) (line : String) : Case × List String :=
   | ["KEY", "a", sig, name, id, fs] => ({ c with a := parseIdent sig name id fs, hasPair := true }, [])
   | ["KEY", "b", sig, name, id, fs] => ({ c with b := parseIdent sig name id fs }, [])
   | ["OBS", raw, ha, hb] => ({ c with raw := raw, ha := ha, hb := hb }, [])
+  | "SRC" :: ls => ({ c with src := some (ls.map (fun h => if h == "-" then [] else unhexS h)) }, [])
+  | ["SHA", bytes, want] => ({ c with sha := some (if bytes == "-" then [] else unhexBytes bytes.toList, want) }, [])
+  | ["SHAT", text, want] => ({ c with sha := some (Sha256.utf8 (if text == "-" then [] else unhexS text), want) }, [])
+  | ["OUTS", raw, full, py, cc, js, m, vs] =>
+    -- `full` = MDF.hash; every back end prints `hash[:8]`
+    let o : Outs := ⟨hexNat ((full.take 8).toString), optHex py, optHex cc, optHex js, optHex m,
+                     if vs == "-" then [] else (vs.splitOn ",").map hexNat⟩
+    ({ c with raw := raw, hb := full, outs := some o }, [])
   | ["END"] => ({}, finishCase c)
   | _ => (c, [])
 
